@@ -15,6 +15,12 @@ def main():
             seeds.append((os.path.dirname(mf)+'/patch.diff', m['id'], m['property']))
     ok = True
     results=[]
+    # work from a snapshot of /repo's working tree taken now, so that edits made to /repo while the
+    # corpus runs (it takes a long time) cannot leak half-written contract files into a mutant's copy
+    base=tempfile.mkdtemp(prefix='govc-st-base-',dir='/var/tmp')
+    subprocess.run(['rsync','-a','--exclude','.git','/repo/',base+'/'],check=True)
+    import atexit
+    atexit.register(lambda: shutil.rmtree(base,ignore_errors=True))
     items = [(p, os.path.basename(p), None) for p in pats] + [(sp, sid+'-seed', prop) for sp, sid, prop in seeds]
     for p, name, sprop in items:
         if only and not any(name.startswith(o) or o in name for o in only): continue
@@ -28,7 +34,7 @@ def main():
             prop,obl = tuple(exp[0].split()[2:4])
         d=tempfile.mkdtemp(prefix='govc-st-',dir='/var/tmp')
         try:
-            subprocess.run(['rsync','-a','--exclude','.git','/repo/',d+'/'],check=True)
+            subprocess.run(['rsync','-a',base+'/',d+'/'],check=True)
             r=subprocess.run(['patch','-p1','-s','-d',d,'-i',p],capture_output=True,text=True)
             if r.returncode!=0:
                 print('FAIL (patch does not apply)',name,r.stdout[-300:]); ok=False; continue
